@@ -860,6 +860,13 @@ func processStructProvider(fset *token.FileSet, info *types.Info, call *ast.Call
 			fmt.Errorf(firstArgReqFormat, types.TypeString(structPtr, nil)))
 	}
 
+	if newCall, ok := call.Args[0].(*ast.CallExpr); !ok || len(newCall.Args) != 1 {
+		return nil, notePosition(fset.Position(call.Pos()),
+			fmt.Errorf(firstArgReqFormat, types.TypeString(structType, nil)))
+	} else if tn, ok := qualifiedIdentObject(info, newCall.Args[0]).(*types.TypeName); !ok || tn.Pkg() == nil {
+		return nil, notePosition(fset.Position(call.Pos()),
+			fmt.Errorf(firstArgReqFormat, types.TypeString(structType, nil)))
+	}
 	stExpr := call.Args[0].(*ast.CallExpr)
 	typeName := qualifiedIdentObject(info, stExpr.Args[0]) // should be either an identifier or selector
 	provider := &Provider{
